@@ -19,8 +19,8 @@ CLAIMS = {
             "that revm's validation is the reference is assumed; the replay closure body (EVM driving) is a stub"),
     "C04": ("narrow: on a fatal replay error the outcomes are exactly the first k-start and the error carries index k (U06); a database fault at commit returns Err(txid) and appends nothing (U05, U04 run_commit_loop E3); a fatal abort is requested only by an attempt that observes itself at the commit head (U04 X5). The sentence about failures seen only by stale speculative attempts is not decidable here (DESIGN.md section 8, F2).",
             "post_execute (nested closures over OnceLock) is not extracted"),
-    "C07": ("per-function obligations: reward formula and fork rule against a transcribed oracle of upstream's formula (U08 from_gas), the defer/immediate decision incl. zero reward still running revm's hook and deferral only when the beneficiary is not in the journal (U08 BeneficiaryMode::apply), checked-add / materialise-only-by-non-zero-credit / fields preserved (U08 apply_to), credited exactly once at commit, touched, absent from the speculative state (U05 E8), incarnation-guarded record/invalidate, origin-chain scan and whole-chain validation (U10), exact vs estimate publication per attempt (U04 execute_task X8), journal account classification (U11), beneficiary reads resolve through the history and never through the mutable cache (U12 basic E2).",
-            "HistoryScan::resolve fold and concurrent record/resolve races are not covered"),
+    "C07": ("per-function obligations: reward formula and fork rule against a transcribed oracle of upstream's formula (U08 from_gas), the defer/immediate decision incl. zero reward still running revm's hook and deferral only when the beneficiary is not in the journal (U08 BeneficiaryMode::apply), checked-add / materialise-only-by-non-zero-credit / fields preserved (U07 apply_to; U05, U08 and U10 are checked against that contract), credited exactly once at commit with exactly that value, touched, absent from the speculative state (U05 E8), incarnation-guarded record/invalidate, origin-chain scan, whole-chain validation, and resolution = rewards applied oldest first by checked addition onto the nearest snapshot or the block-start anchor (U10 resolve E1, resolve_before E2), exact vs estimate publication per attempt (U04 execute_task X8), journal account classification (U11), beneficiary reads resolve through the history and never through the mutable cache (U12 basic E2).",
+            "concurrent record/resolve races are not covered (each scan reads the entries through one fixed view)"),
     "C08": ("per-function obligations: journal account classification as a total decision table (U11); storage() returns the newest of reset marker and slot version, a reset masks the backing store, the same-transaction created slot wins over its own reset, both locations recorded, estimates block (U12); deletion and creation publish a reset marker that is part of the write set, deleted accounts publish an absent Basic value, changed slots publish their present value (U13); cached-account destroy operations equal revm's source (U14).",
             "commit-side cache clearing (apply_account_state, iterator chains) and revm's fork-specific finalisation are not covered"),
     "C09": ("per-function obligations: basic() resolves basic fields and code separately (latest preceding Basic version / latest preceding Code version else backing store by hash) and records both locations; code_by_address as specified (U12); a Code version (in the write set, with the new code) and a Basic version are published whenever the post-state code hash differs from the hash read (U13 code_changed rule).",
